@@ -58,7 +58,9 @@ def zoo_clean() -> dict:
                                             {"name": "X-Flags", "in": "header", "schema": {"type": "boolean"}}, {"name": "session", "in": "cookie", "required": True, "schema": I},
                                             {"name": "filter", "in": "query", "schema": {"oneOf": [I, {"type": "string", "format": "date"}]}}, {"name": "nullable", "in": "query", "schema": {"type": ["integer", "null"]}}],
                              "responses": {"200": {"description": "ok", "headers": {"X-Total": {"schema": I}}, "content": {"application/json": {"schema": {"type": "array", "items": r("Leaf")}}}},
-                                           "204": {"description": "none"}, "404": {"description": "nf", "content": {"text/plain": {"schema": S}}}}},
+                                           "204": {"description": "none"}, "404": {"description": "nf", "content": {"text/plain": {"schema": S}}},
+                                           # informational statuses are documented statuses too (101 and 102 reach the caller)
+                                           "101": {"description": "switching protocols"}, "102": {"description": "processing", "content": {"application/json": {"schema": r("Leaf")}}}}},
                      "post": {"operationId": "create leaf", "tags": ["leaves"], "requestBody": {"required": True, "content": {"application/json": {"schema": r("Leaf")}, "application/x-www-form-urlencoded": {"schema": r("Leaf")},
                                                                                                                                "multipart/form-data": {"schema": {"type": "object", "required": ["file"], "properties": {
                                                                                                                                    "file": {"type": "string", "format": "binary"}, "files": {"type": "array", "items": {"type": "string", "format": "binary"}},
